@@ -11,6 +11,8 @@ import inspect
 
 import numpy as np
 
+from vf.tx import amax as _amax
+
 from vf.core import Workload
 from vf import taps, gen, tx
 from vf.digest import digest
@@ -112,7 +114,7 @@ class WarpMonitor(taps.Monitor):
                 continue    # landmarks left the warp's domain
             e = tx.maxdiff(back, p)
             ctx.err("funnel_landmark_registration", e)
-            if e > 1e-6 * max(1.0, float(np.abs(p).max())):
+            if not (e <= 1e-6 * max(1.0, float(np.abs(p).max()))):
                 ctx.fail("warped_landmarks_are_not_registered_to_the_warp", cls=cls, mech=self.method + ":" + tk, err=e, group=k)
 
 
@@ -224,7 +226,7 @@ def judge(ctx, src, res, T, W, b, half, op, opts, tol, smooth=False, margin=0.0,
                 e = float(np.abs(v - L[j]).max())
                 judged += 1
                 ctx.err("decode_at_landmark:" + ("smooth" if smooth else "affine"), e)
-                if e > tol:
+                if not (e <= tol):
                     ctx.fail("pixel_under_returned_landmark_is_not_the_pixel_under_the_original_landmark", cls=cls, mech=mech, err=e,
                              original=L[j], returned=q, decoded=v, options=opts)
                     break
@@ -240,7 +242,7 @@ def judge(ctx, src, res, T, W, b, half, op, opts, tol, smooth=False, margin=0.0,
             for ch in range(len(W)):
                 exp = W[ch] @ Sv + b[ch]
                 got = np.asarray(res.pixels[d + ch], dtype=float)[tuple(idx.T)]
-                if np.abs(got - exp).max() > max(tol, 1e-6) * 10:
+                if _amax(got - exp) > max(tol, 1e-6) * 10:
                     ctx.fail("channels_of_the_result_disagree_about_where_they_were_sampled", cls=cls, mech=mech, channel=ch)
                     break
         # ---- (b) the returned transform maps result coordinates to source coordinates
@@ -249,7 +251,7 @@ def judge(ctx, src, res, T, W, b, half, op, opts, tol, smooth=False, margin=0.0,
                 Tp = np.asarray(T.apply(idx.astype(float)))
                 e = float(np.abs(Tp.T - S[(slice(None),) + tuple(idx.T)]).max())
                 ctx.err("returned_transform_vs_pixels", e)
-                if e > max(tol, 1e-6):
+                if not (e <= max(tol, 1e-6)):
                     ctx.fail("returned_transform_disagrees_with_the_pixels", cls=cls, mech=mech, err=e, options=opts)
             except Exception as ex:
                 if not smooth:
@@ -301,7 +303,7 @@ def judge(ctx, src, res, T, W, b, half, op, opts, tol, smooth=False, margin=0.0,
             if cls == "BooleanImage":
                 judged += len(back)
                 ctx.tap("decode_at_landmarks", "calls"); ctx.tap("decode_at_landmarks", "checked")
-            if e > max(tol, 1e-6) and not ok:
+            if not (e <= max(tol, 1e-6)) and not ok:
                 ctx.fail("returned_transform_does_not_map_result_landmarks_to_source_landmarks", cls=cls, mech=mech, err=e, options=opts)
     return judged
 
